@@ -661,3 +661,102 @@ pub async fn battery(ctx: Ctx, other: Option<ServiceSlot>, fault: Rc<Slot<bool>>
         let _ = op!(ctx, "destroy_object", json!({}), o.destroy());
     }
 }
+
+// ---------------------------------------------------------------------------------------------
+// C12: well-formed values of every container shape cross the version boundary in both directions
+
+/// Values whose encoding differs between the two epochs (vectors, byte strings, maps and sets of
+/// every key width with small and large keys, structs), alone and nested.
+pub fn battery_values() -> Vec<aldrin_core::Value> {
+    use aldrin_core::{Bytes, Struct, Value};
+    use std::collections::{HashMap, HashSet};
+    let big64: u64 = 1 << 40;
+    let mut vs = vec![
+        Value::Vec(vec![Value::U8(1), Value::None, Value::String("x".into())]),
+        Value::Bytes(Bytes::new(vec![1, 2, 3, 250, 255])),
+        Value::U8Map(HashMap::from([(0, Value::U8(1)), (250, Value::None)])),
+        Value::I8Map(HashMap::from([(-128, Value::U8(1)), (127, Value::None)])),
+        Value::U16Map(HashMap::from([(3, Value::U8(1)), (300, Value::U8(2)), (65535, Value::None)])),
+        Value::I16Map(HashMap::from([(-300, Value::U8(1)), (255, Value::None)])),
+        Value::U32Map(HashMap::from([(3, Value::U8(1)), (248, Value::U8(2)), (1 << 20, Value::None)])),
+        Value::I32Map(HashMap::from([(-(1 << 20), Value::U8(1)), (124, Value::None)])),
+        Value::U64Map(HashMap::from([(3, Value::U8(1)), (248, Value::U8(2)), (big64, Value::None)])),
+        Value::I64Map(HashMap::from([(-(1i64 << 40), Value::U8(1)), (7, Value::None)])),
+        Value::StringMap(HashMap::from([("a".to_string(), Value::U8(1)), (String::new(), Value::None)])),
+        Value::UuidMap(HashMap::from([(Uuid::from_u128(7), Value::U8(1))])),
+        Value::U8Set(HashSet::from([0, 250])),
+        Value::U16Set(HashSet::from([254, 255, 65535])),
+        Value::U32Set(HashSet::from([248, 1 << 30])),
+        Value::U64Set(HashSet::from([3, 248, big64])),
+        Value::I64Set(HashSet::from([-(1i64 << 50), 5])),
+        Value::StringSet(HashSet::from(["k".to_string()])),
+        Value::Struct(Struct(HashMap::from([(1, Value::U8(1)), (300, Value::String("s".into()))]))),
+        Value::Enum(Box::new(aldrin_core::Enum::new(70000, Value::U8(9)))),
+    ];
+    // nested: every shape inside a vector inside a map value inside Some
+    let inner = vs.clone();
+    vs.push(Value::Some(Box::new(Value::U64Map(HashMap::from([(big64 + 1, Value::Vec(inner))])))));
+    vs
+}
+
+/// Echo server: answers every call with the value it received (decoded and encoded again by this
+/// client), until `calls` calls were served or the callers are done.
+pub async fn echo_server(ctx: Ctx, obj: u64, svc: u64, slot: ServiceSlot, callers_left: Rc<Latch>) {
+    ctx.jitter().await;
+    let Ok(object) = op!(ctx, "create_object", json!({"uuid": obj}), ctx.handle.create_object(obj_uuid(obj))) else {
+        slot.set(None);
+        return;
+    };
+    let Ok(mut service) = op!(ctx, "create_service", json!({"uuid": svc}), object.create_service(svc_uuid(svc), ServiceInfo::new(1))) else {
+        slot.set(None);
+        return;
+    };
+    slot.set(Some(service.id()));
+    loop {
+        let call = match select2(service.next_call(), callers_left.wait_zero()).await {
+            Either::Left(Some(call)) => call,
+            _ => break,
+        };
+        match call.deserialize::<aldrin_core::Value>() {
+            Ok(v) => {
+                let _ = call.ok(&v);
+            }
+            Err(_) => {
+                ctx.log.fact(&ctx.name, "echo", json!({"i": -1, "ok": false, "why": "the callee could not decode the argument"}));
+                let _ = call.invalid_args();
+            }
+        }
+    }
+    let _ = op!(ctx, "destroy_object", json!({}), object.destroy());
+}
+
+/// Echo caller: sends every battery value and requires the very same value back.
+pub async fn echo_caller(ctx: Ctx, slot: ServiceSlot, callers_left: Rc<Latch>) {
+    if let Some(id) = slot.get().await {
+        ctx.jitter().await;
+        if let Ok(proxy) = op!(ctx, "create_proxy", json!({}), Proxy::new(&ctx.handle, id)) {
+            for (i, v) in battery_values().into_iter().enumerate() {
+                let r = proxy.call(0, &v, None).await;
+                let (ok, why) = match r {
+                    Ok(rep) => match rep.args() {
+                        Ok(x) => match x.deserialize::<aldrin_core::Value>() {
+                            Ok(back) if back == v => (true, String::new()),
+                            Ok(_) => (false, "the value came back changed".to_string()),
+                            Err(e) => (false, format!("the reply does not decode: {e:?}")),
+                        },
+                        Err(_) => (false, "the callee answered with an error".to_string()),
+                    },
+                    Err(e) => (false, format!("the call failed: {}", err_class(&e))),
+                };
+                ctx.log.fact(&ctx.name, "echo", json!({"i": i, "ok": ok, "why": why}));
+                if !ok {
+                    break;
+                }
+                if ctx.chance(1, 3) {
+                    ctx.jitter().await;
+                }
+            }
+        }
+    }
+    callers_left.add(-1);
+}
